@@ -23,6 +23,7 @@ RULE = ('a fresh generated package per case (modules, equally named modules in a
         'with its own colliding imports (aliases, plain three-component imports, `from PK import sub`, re-exported objects, a decorator-registered '
         'class with a method), binding functions, classes, methods and nested members; negatives: a name bound only by an earlier top-level call, a '
         'grandparent, a grandchild, a sibling include, in binding / block / reference / macro position -> NameError and nothing delivered. '
+        'Cross-parse: the statement that first configures a method holds a reference to the method\'s own class; alias collisions: an alias equal to the package name next to a plain import of that package. '
         'distinct = (import forms, spelling sequence, order class)')
 TIERS = {
     'quick': {'workers': 8, 'cases': 160, 'timeout': 900, 'fresh_process_every': 12},
